@@ -394,22 +394,33 @@ func runT[T any](c Case, d *desc[T]) pbt.Outcome {
 	}
 	var wits []witness[T]
 	var keeps []kept[T]
-	hist := ctor + ";"
+	// the history is rendered only when a message needs it
+	var calls []func() string
+	history := func() string {
+		hs := ctor + ";"
+		for _, f := range calls {
+			if len(hs) >= 500 {
+				return hs + " ..."
+			}
+			hs += " " + f() + ";"
+		}
+		return hs
+	}
 	// verify is called after every operation
 	verify := func(step int, callf func() string) string {
 		if df := diff(a, m, d); df != "" {
-			return fmt.Sprintf("%s array, step %d, after %s: %s; history: %s", shape, step, callf(), df, hist)
+			return fmt.Sprintf("%s array, step %d, after %s: %s; history: %s", shape, step, callf(), df, history())
 		}
 		for _, wt := range wits {
 			if df := diff(wt.a, wt.m, d); df != "" {
-				return fmt.Sprintf("%s array, step %d, after %s on the other side: the %s changed: %s; history: %s", shape, step, callf(), wt.what(), df, hist)
+				return fmt.Sprintf("%s array, step %d, after %s on the other side: the %s changed: %s; history: %s", shape, step, callf(), wt.what(), df, history())
 			}
 		}
 		for _, k := range keeps {
 			for i := range k.win {
 				if !d.eq(k.win[i], k.m.cells[k.y*w+k.x1+i]) {
 					return fmt.Sprintf("%s array, step %d, after %s: the slice returned earlier by %s is no longer a live window: slice[%d] = %v, cell (%d,%d) = %v; history: %s",
-						shape, step, callf(), k.what(), i, k.win[i], k.x1+i, k.y, k.m.cells[k.y*w+k.x1+i], hist)
+						shape, step, callf(), k.what(), i, k.win[i], k.x1+i, k.y, k.m.cells[k.y*w+k.x1+i], history())
 				}
 			}
 		}
@@ -420,7 +431,7 @@ func runT[T any](c Case, d *desc[T]) pbt.Outcome {
 		k := mod(op.K, int(nOps))
 		var callf func() string // built only when a message or the history needs it
 		fail := func(format string, args ...any) pbt.Outcome {
-			return pbt.Fail("%s array, step %d, %s: %s; history: %s", shape, step, callf(), fmt.Sprintf(format, args...), hist)
+			return pbt.Fail("%s array, step %d, %s: %s; history: %s", shape, step, callf(), fmt.Sprintf(format, args...), history())
 		}
 		switch k {
 		case OpSet:
@@ -650,24 +661,22 @@ func runT[T any](c Case, d *desc[T]) pbt.Outcome {
 		if df := verify(step, callf); df != "" {
 			return pbt.Fail("%s", df)
 		}
-		if len(hist) < 500 {
-			hist += " " + callf() + ";"
-		} else if !strings.HasSuffix(hist, "...") {
-			hist += " ..."
+		if len(calls) < 40 {
+			calls = append(calls, callf)
 		}
 	}
 	// end of case: String and dimensions agree with the model
 	if w*h <= stringCells {
 		var s string
 		if p := try(func() { s = a.String() }); p != nil {
-			return pbt.Fail("%s array: String() panicked: %v; history: %s", shape, p, hist)
+			return pbt.Fail("%s array: String() panicked: %v; history: %s", shape, p, history())
 		}
 		if want := m.String(); s != want {
-			return pbt.Fail("%s array: String() = %s, want %s; history: %s", shape, clip(s), clip(want), hist)
+			return pbt.Fail("%s array: String() = %s, want %s; history: %s", shape, clip(s), clip(want), history())
 		}
 	}
 	if a.Width() != w || a.Height() != h {
-		return pbt.Fail("%s array: Width,Height = %d,%d at the end; history: %s", shape, a.Width(), a.Height(), hist)
+		return pbt.Fail("%s array: Width,Height = %d,%d at the end; history: %s", shape, a.Width(), a.Height(), history())
 	}
 	out.NonTrivial = w != h && w >= 2 && h >= 2 && lastRow && lastCol
 	if w != h && w >= 2 && h >= 2 {
